@@ -129,6 +129,18 @@ def run(chk, prog):
                   "%s: the sum runs over the whole axis" % nm, "%s:sum-range:%s" % (nm, iL.hi))
         mx = [a for a in s.accesses if a.kind == "store" and a.base == "maxi"]
         okm = len(mx) == 1 and mx[0].value is not None and "axis == 0" in str(mx[0].value) and sp.expand(S.norm(mx[0].value) - N) == 0
+        if not okm and len(mx) == 2 and all(m_.value is not None and m_.op == "=" for m_ in mx):
+            # the same choice written as if/else: one store per branch of a test of the axis, each the length of its axis (== N)
+            def branch_(m_):
+                for g_, pol in m_.guards:
+                    if not isinstance(g_, dict) or "axis" not in A.show(g_):
+                        continue
+                    if g_.get("k") == "SwitchCase":
+                        return "zero" if list(g_.get("labels") or []) == [0] and pol else "other"
+                    if g_.get("k") == "BinaryOperator" and g_.get("op") in ("==", "!=") and "0" in A.show(g_):
+                        return "zero" if (g_["op"] == "==") == bool(pol) else "other"
+                return None
+            okm = sorted(str(branch_(m_)) for m_ in mx) == ["other", "zero"] and all(sp.expand(S.norm(m_.value) - N) == 0 for m_ in mx)
         chk.check(okm, "R2", A.loc(fn, {"line": mx[0].line if mx else fn["line"]}), "%s: axis length is nx for axis 0, ny for axis 1 (== N)" % nm, "%s:maxi" % nm)
         wf = G.DELTA(axis) / sp.IndexedBase("_filling")[nsym]
         chk.check(fac.value is not None and sp.simplify(fac.value - wf) == 0, "R2", A.loc(fn, {"line": fac.line}),
